@@ -38,6 +38,22 @@ def kidsCmp (old : List Nat) (exactStates : Bool) : PKids Q → PKids Q → Cmp
   | _, _ => .different
 end
 
+def showState : NState Q → String
+  | .indeterminate => "I"
+  | .infeasible => "X"
+  | .feasible => "F"
+  | .witness ws => s!"W{ws.map showVec}"
+
+mutual
+/-- compact rendering of a tree for divergence reports -/
+def showTree : PT Q → String
+  | .node i c ks => s!"({i}:{showState c.state} {c.aff.mat.map showVec}|{showVec c.aff.bias}{showKids ks})"
+def showKids : PKids Q → String
+  | .nil => ""
+  | .cons none r => " _" ++ showKids r
+  | .cons (some t) r => " " ++ showTree t ++ showKids r
+end
+
 def noDup (l : List Nat) : Bool :=
   let s := (l.toArray.qsort (· < ·)).toList
   (s.zip s.tail).all (fun p => p.1 != p.2)
